@@ -462,8 +462,9 @@ func ruleSQLTAINT(c *Ctx, r *Report) {
 			}
 		}
 	}
-	c.numFinite(r)
 }
+
+func ruleNUMFINITE(c *Ctx, r *Report) { c.numFinite(r) }
 
 // checkParamCase: SQL is the constant "?" and the parameter list is exactly [value].
 func (c *Ctx) checkParamCase(r *Report, rule, key string, row skelRow, v string) {
